@@ -40,14 +40,15 @@ Classes(T) ==
     [] T = "path" -> {"none", "posix", "windows"}
     [] T = "command" -> {"none", "posix", "windows"}
     [] T = "digest" -> {"none", "md5", "sha", "all"}
-    [] T \in {"net.ipaddress", "net.IPAddress"} -> {"none", "v4", "v6", "v6small"}
+    [] T \in {"net.ipaddress", "net.IPAddress"} -> {"none", "v4", "v6small", "v6mid", "v6big"}      \* v6 below 2^32 / below 2^64 / above
     [] T = "stringlist" -> {"none", "empty", "texts"}
     [] T = "dictlist" -> {"none", "empty", "dicts"}
     [] T = "dynamic" -> {"none", "text", "native", "big", "bytes", "bool", "utc", "texts"}
 
 \* ---------------- Enc ----------------
 Enc(T, c) ==
-  IF c = "none" THEN Nil
+  IF c = "none" /\ T = "digest" THEN Arr(<<Nil, Nil, Nil>>)       \* an unset digest IS the empty default: three absent hashes
+  ELSE IF c = "none" THEN Nil
   ELSE CASE T \in IntTypes \/ (T = "dynamic" /\ c \in {"native", "big"}) ->
               IF c = "native" THEN Int ELSE Ext(17, Arr(<<Bool, Bin>>))              \* 0x11: [negative?, magnitude bytes]
          [] T \in TextTypes \/ (T = "dynamic" /\ c = "text") -> Str
@@ -60,10 +61,12 @@ Enc(T, c) ==
          [] T = "command" -> Arr(<<Arr(<<Str, Arr(<<Str>>)>>), Int>>)               \* [[executable, [args]], flavour]  (one argument in the samples)
          [] T = "digest" -> Arr(<<IF c \in {"md5", "all"} THEN Bin ELSE Nil, IF c \in {"sha", "all"} THEN Bin ELSE Nil, IF c \in {"sha", "all"} THEN Bin ELSE Nil>>)
          [] T \in {"net.ipaddress", "net.IPAddress"} ->
-              IF c = "v6small" /\ "FamilyFromMagnitude" \notin Dev THEN Str ELSE IF c \in {"v4", "v6", "v6small"} /\ c # "v6" THEN Int
-              ELSE Ext(17, Arr(<<Bool, Bin>>))                                     \* an IPv6 address above 2^64 is a big integer; samples use such addresses
+              IF c = "v6small" /\ "FamilyFromMagnitude" \notin Dev THEN Str        \* text form: as an integer it could not be told from IPv4
+              ELSE IF c \in {"v4", "v6small", "v6mid"} THEN Int
+              ELSE Ext(17, Arr(<<Bool, Bin>>))                                     \* an IPv6 address above 2^64 is a big integer
          [] T = "stringlist" \/ (T = "dynamic" /\ c = "texts") -> IF c = "empty" THEN Arr(<<>>) ELSE Arr(<<Str, Str>>)
          [] T = "dictlist" -> IF c = "empty" THEN Arr(<<>>) ELSE Arr(<<Map>>)
+         [] OTHER -> [f |-> "?"]                                                    \* a class the format has no encoding for
 
 \* ---------------- Dec: the reader's branch logic ----------------
 Dec(T, w) ==
@@ -80,7 +83,7 @@ Dec(T, w) ==
                                (IF w.items[1].f # "NIL" /\ w.items[2].f # "NIL" THEN "all" ELSE IF w.items[1].f # "NIL" THEN "md5" ELSE IF w.items[2].f # "NIL" THEN "sha" ELSE "none")
                             ELSE "?"
          [] T \in {"net.ipaddress", "net.IPAddress"} ->
-              IF w.f = "STR" THEN "by-text" ELSE IF w.f = "INT" THEN "v4-if-below-2^32-else-v6" ELSE IF w.f = "EXT" THEN "v6" ELSE "?"
+              IF w.f = "STR" THEN "by-text" ELSE IF w.f = "INT" THEN "v4-if-below-2^32-else-v6" ELSE IF w.f = "EXT" THEN "v6big" ELSE "?"
          [] T = "stringlist" -> IF w.f = "ARR" THEN (IF w.items = <<>> THEN "empty" ELSE "texts") ELSE "?"
          [] T = "dictlist" -> IF w.f = "ARR" THEN (IF w.items = <<>> THEN "empty" ELSE "dicts") ELSE "?"
          [] T = "dynamic" -> CASE w.f = "STR" -> "text" [] w.f = "INT" -> "native" [] w.f = "BIN" -> "bytes" [] w.f = "BOOL" -> "bool"
@@ -108,6 +111,29 @@ IsRecordFrame(w) == /\ w.f = "EXT" /\ w.sub = 1 /\ w.payload.f = "ARR" /\ Len(w.
 IsDescriptorFrame(w) == w.f = "EXT" /\ w.sub = 2 /\ w.payload.f = "ARR" /\ Len(w.payload.items) = 2 /\ w.payload.items[1].f = "STR"
                         /\ w.payload.items[2].f = "ARR" /\ \A i \in DOMAIN w.payload.items[2].items : w.payload.items[2].items[i] = Arr(<<Str, Str>>)
 IsHeaderFrame(w) == w.f = "BIN"
+
+\* Conformance of an observed tree with the encoding: exact for fixed shapes, a pattern where the length varies
+\* (command arguments, text lists, dictionaries lists)
+AllOf(items, fam) == \A i \in DOMAIN items : items[i].f = fam
+Conforms(T, c, w) ==
+  CASE T = "command" /\ c # "none" ->
+          /\ w.f = "ARR" /\ Len(w.items) = 2 /\ w.items[2] = Int
+          /\ w.items[1].f = "ARR" /\ Len(w.items[1].items) = 2 /\ w.items[1].items[1] = Str
+          /\ w.items[1].items[2].f = "ARR" /\ AllOf(w.items[1].items[2].items, "STR")
+    [] (T = "stringlist" \/ T = "dynamic") /\ c = "texts" -> w.f = "ARR" /\ w.items # <<>> /\ AllOf(w.items, "STR")
+    [] T = "dictlist" /\ c = "dicts" -> w.f = "ARR" /\ w.items # <<>> /\ AllOf(w.items, "MAP")
+    [] OTHER -> w = Enc(T, c)
+ConformsList(T, cs, w) == w.f = "ARR" /\ Len(w.items) = Len(cs) /\ \A i \in DOMAIN cs : Conforms(T, cs[i], w.items[i])
+\* typed list form T[]: an array of element encodings; an unset list is the empty list
+EncList(T, cs) == Arr([i \in DOMAIN cs |-> Enc(T, cs[i])])
+\* grouped record: EXT(0x12, [name, [[identifier, values], ...]])
+IsGroupedFrame(w) == /\ w.f = "EXT" /\ w.sub = 18 /\ w.payload.f = "ARR" /\ Len(w.payload.items) = 2 /\ w.payload.items[1].f = "STR"
+                     /\ w.payload.items[2].f = "ARR"
+                     /\ \A i \in DOMAIN w.payload.items[2].items :
+                           LET m == w.payload.items[2].items[i] IN m.f = "ARR" /\ Len(m.items) = 2 /\ m.items[1] = Arr(<<Str, Int>>) /\ m.items[2].f = "ARR" /\ ReservedOK(m.items[2].items)
+FrameOK(w) == IsRecordFrame(w) \/ IsDescriptorFrame(w) \/ IsGroupedFrame(w)
+\* Stream ::= Header Frame*
+StreamOK(ws) == ws # <<>> /\ IsHeaderFrame(ws[1]) /\ \A i \in 2..Len(ws) : FrameOK(ws[i]) \/ IsHeaderFrame(ws[i])
 
 \* ---------------- model-level exploration ----------------
 VARIABLES ty, cl
